@@ -805,6 +805,13 @@ void Run::opBuild(const Json& op) {
   }
   simfs::fs().actor = savedActor;
   ev(std::string("build-end ") + (ok ? "ok" : "failed"));
+  // A cancel() that lands after the build's final check cancels the *next* build of the same frontend (the flag is
+  // consumed by the next initialize()).  That is the API's behaviour, not a property of this build: such a process is not
+  // used for another build here.
+  if (bCancelIssued && !(bCancelReturnedInBuild && !ok)) {
+    runner::Silence quiet;
+    session.reset();
+  }
   // ---- C14: exactly the obsolete outputs inside the allowed roots are gone, nothing else was touched
   if (!staleCmds.empty()) {
     staleChecks++;
